@@ -2,7 +2,7 @@
    most one milli-CPU: m - 1 <= rt_milli m <= m for every 0 <= m < 2^50.  This discharges the
    hypothesis [rt_ok] of the budget theorems for every realistic reservation. *)
 From Coq Require Import List ZArith Bool Lia.
-From Verif Require Import Gen.Gen_consts C10.Model C10.Spec.
+From Verif Require Import Gen.Gen_consts C10.Model C10.Spec C10.Proofs_Budget.
 Open Scope Z_scope.
 
 Lemma pow2_pos k : 0 <= k -> 0 < 2 ^ k.
@@ -143,8 +143,8 @@ Qed.
 
 Corollary rt_ok_holds i : node_reserved i < 2 ^ 50 -> rt_ok i = true.
 Proof.
-  intros H. unfold rt_ok.
-  assert (0 <= node_reserved i) by (unfold node_reserved; lia).
+  intros H. unfold rt_ok. rewrite !reservation_spec_eq.
+  assert (0 <= node_reserved i) by apply node_reserved_nonneg.
   pose proof (rt_milli_bounds (node_reserved i) ltac:(lia)) as [H1 H2].
   apply andb_true_iff. split; apply Z.leb_le; assumption.
 Qed.
